@@ -5,5 +5,6 @@ pub mod oracle;
 pub mod report;
 pub mod scenario;
 pub mod session;
+pub mod small;
 pub mod util;
 pub mod wire;
